@@ -140,6 +140,11 @@ COMMON_ATTR_NAMES = ['id', 'ID', 'keyName', 'subkeys', 'value', 'Children', 'ope
 FOLD_CHARS = '\u00df\u017f\u03c2\u0149\u01f0\ufb01\ufb06\u1e9e\u0390'
 FOLD_ATTR_NAMES = ['Ma\u00dfe', '\u017fize', '\u039f\u0394\u039f\u03c2', '\u0149', '\u01f0x', '\ufb01le', 'STRA\u1e9eE']
 COMMON_TYPES = ['DmElement', 'DmeParticleSystemDefinition', 'DmeParticleOperator', 'DmElementLeaf', 'dmelement', '']
+# Element types that *resemble* the in-band KeyValues2 syntax without being a keyword: a stem (arbitrary, or itself a
+# value-type word) followed by something like the "_array" suffix in any letter case, doubled, or nearly that suffix.
+# (Types that are exactly a keyword are removed afterwards by the kv2_safe_types filter.)
+KWLIKE_STEMS = ['', 'Dme', 'DmeFloat', 'sample', 'x', 'Int', 'element', 'elementid', 'float_array', 'Vector3', ' ']
+KWLIKE_TAILS = ['_array', '_Array', '_ARRAY', '_array_array', '_arra', '_arrays', 'array', '_array ', '_', 'id']
 
 
 def _finish(pair):
@@ -224,7 +229,8 @@ def _graphs(max_elems, max_attrs, max_array, ascii_only, nul, vtypes, kv2_safe_t
     if not ascii_only:
         name_choices += [st.sampled_from(FOLD_ATTR_NAMES), st.text(FOLD_CHARS + 'aZ', min_size=1, max_size=4)]
     attr_name = st.one_of(name_choices).filter(lambda s: s.casefold() != 'name')
-    type_name = st.one_of(text, st.sampled_from(COMMON_TYPES))
+    kwlike = st.tuples(st.one_of(st.sampled_from(KWLIKE_STEMS), text), st.sampled_from(KWLIKE_TAILS)).map(''.join)
+    type_name = st.one_of(text, st.sampled_from(COMMON_TYPES), kwlike)
     if kv2_safe_types:
         type_name = type_name.filter(lambda s: not type_is_kv2_keyword(s))
     attrs = st.lists(st.tuples(attr_name, st.one_of(choices)), max_size=max_attrs, unique_by=lambda a: a[0].casefold())
@@ -625,7 +631,7 @@ def graph_facts(canon: dict) -> dict:
         'empty_array': False, 'stub': False, 'stub_in_array': False, 'null': False, 'null_in_array': False,
         'non_ascii': False, 'has_time': False, 'nul': False, 'cells': set(), 'indegree': indeg,
         'name_removed': set(), 'name_removed_with_attrs': False, 'edits': set(),
-        'zero_signs': set(), 'fold_name_elem': [],
+        'zero_signs': set(), 'fold_name_elem': [], 'scalar_elem_targets': [],
     }
 
     def text(s):
@@ -662,6 +668,8 @@ def graph_facts(canon: dict) -> dict:
             if vt == 'element':
                 if not is_arr and nm.lower() != nm.casefold() and val[0] == 'elem':
                     facts['fold_name_elem'].append([val[1]])
+                if not is_arr and val[0] == 'elem':
+                    facts['scalar_elem_targets'].append(val[1])
                 for item in (val if is_arr else [val]):
                     if item[0] == 'elem':
                         indeg[item[1]] += 1
@@ -680,6 +688,11 @@ def graph_facts(canon: dict) -> dict:
     facts['signed_zeros'] = len(facts['zero_signs']) == 2
     # a scalar element value under a name with lower() != casefold() that the nested text layout writes inline
     facts['fold_name_inline'] = any(t != 0 and indeg[t] == 1 for targets in facts['fold_name_elem'] for t in targets)
+    # an element whose type ends in "_array" (any case) and that the nested text layout writes inline as the value of
+    # a scalar element attribute - where the parser has to tell `"attr" "<type>"` from `"attr" "<valuetype>_array"`
+    facts['array_suffix_type_inline'] = any(
+        t != 0 and indeg[t] == 1 and nodes[t]['type'].casefold().endswith('_array')
+        for t in facts['scalar_elem_targets'])
     # cycle: iterative three-colour DFS
     colour = [0] * len(nodes)
     for start in range(len(nodes)):
